@@ -24,6 +24,7 @@ inductive PErr where
   | emptyString                            -- ParseBytes("")
   | negative                               -- ErrNegativePolicyCount
   | emptyKey | dupKey                      -- options.Parse
+  | unknownOption | badDuration            -- options.Apply
   | unterminatedSingle | unterminatedDouble | emptyCommand   -- SplitShellStrings
 deriving Repr, DecidableEq
 
@@ -185,6 +186,102 @@ def optionsLoop : List (Str × Str) → List Str → Out (List (Str × Str))
 
 /-- `options.Parse` -/
 def optionsParse (opts : List Str) : Out (List (Str × Str)) := optionsLoop [] opts
+
+/-! ### applying extended options to a config struct (`Options.Apply`) -/
+
+/-- what `Apply` switches on: `Type.Name()` of the field ("string", "int", "uint", "bool", "Duration");
+    any other name makes `Apply` panic ("type … not handled") -/
+inductive Kind where
+  | str | int | uint | bool | dur | other
+deriving Repr, DecidableEq
+
+/-- value stored in the field -/
+inductive Val where
+  | str (s : Str)
+  | int (i : Int)
+  | uint (n : Nat)
+  | bool (b : Bool)
+  | dur (ns : Int)
+deriving Repr, DecidableEq
+
+/-- `strconv.ParseBool` -/
+def parseBool (s : Str) : Option Bool :=
+  if s = [49] ∨ s = [116] ∨ s = [84] ∨ s = [116, 114, 117, 101] ∨ s = [84, 82, 85, 69] ∨ s = [84, 114, 117, 101] then some true
+  else if s = [48] ∨ s = [102] ∨ s = [70] ∨ s = [102, 97, 108, 115, 101] ∨ s = [70, 65, 76, 83, 69] ∨ s = [70, 97, 108, 115, 101] then some false
+  else none
+
+/-- one iteration of the `for key, value := range o` loop of `Apply` for a known key: convert the
+    value according to the field's type. `durOracle` = result of `time.ParseDuration(value)` in ns
+    (stdlib, not modelled). -/
+def applyOne (k : Kind) (value : Str) (durOracle : Option Int) : Out Val :=
+  match k with
+  | .str => .ok (.str value)
+  | .int =>
+    (match parseInt0 32 value with
+     | .error e => .err (ofNumErr e)
+     | .ok vi => .ok (.int vi))                    -- SetInt(vi)
+  | .uint =>
+    (match parseUint0 32 value with
+     | .error e => .err (ofNumErr e)
+     | .ok vi => .ok (.uint vi))                   -- SetUint(vi)
+  | .bool =>
+    (match parseBool value with
+     | none => .err .esyntax
+     | some b => .ok (.bool b))
+  | .dur =>
+    (match durOracle with
+     | none => .err .badDuration
+     | some d => .ok (.dur d))
+  | .other => .panic
+
+/-- `Options.Apply` on a struct whose tagged fields are `fields` (tag, kind): every option must name
+    a field and convert; the options are visited in map order (here: list order), the first failure
+    aborts -/
+def applyAll (fields : List (Str × Kind)) (dur : Str → Option Int) : List (Str × Str) → Out (List (Str × Val))
+  | [] => .ok []
+  | (key, value) :: rest =>
+    match fields.lookup key with
+    | none => .err .unknownOption
+    | some k =>
+      match applyOne k value (dur value) with
+      | .panic => .panic
+      | .err e => .err e
+      | .ok v =>
+        match applyAll fields dur rest with
+        | .ok vs => .ok ((key, v) :: vs)
+        | r => r
+
+/-- C49 for one applied option: never a panic (for the field types restic's config structs use);
+    a string is stored verbatim; an `int` / `uint` option is accepted exactly when the value is a
+    Go integer literal (optional sign only for `int`) whose number fits 32 bits of the field's
+    signedness, and then exactly that number is stored; bools per `strconv.ParseBool` -/
+def specApply (k : Kind) (value : Str) (durOracle : Option Int) (res : Out Val) : Bool :=
+  match k with
+  | .other => true
+  | .str => res == .ok (.str value)
+  | .int =>
+    let x : Option Int := (numeral (splitSign value).2).map fun n => if (splitSign value).1 then -(n : Int) else (n : Int)
+    (match x, res with
+     | some x, .ok (.int y) => x == y && -2147483648 ≤ y && y < 2147483648
+     | some x, .err _ => !(-2147483648 ≤ x && x < 2147483648)
+     | none, .err _ => true
+     | _, _ => false)
+  | .uint =>
+    (match numeral value, res with
+     | some n, .ok (.uint m) => n == m && m < 4294967296
+     | some n, .err _ => !(n < 4294967296)
+     | none, .err _ => true
+     | _, _ => false)
+  | .bool =>
+    (match parseBool value, res with
+     | some b, .ok (.bool b') => b == b'
+     | none, .err _ => true
+     | _, _ => false)
+  | .dur =>
+    (match durOracle, res with
+     | some d, .ok (.dur d') => d == d'
+     | none, .err _ => true
+     | _, _ => false)
 
 /-! ### check --read-data-subset (all branches of checkFlags) -/
 
